@@ -53,6 +53,26 @@ def r1(text, arg, what):
     return text, total
 
 
+def _split_fields(body):
+    """split struct fields at commas that are outside (), [], {} and <> (generic arguments)"""
+    m = rp.mask(body)
+    parts, d, a, last = [], 0, 0, 0
+    for i, c in enumerate(m):
+        if c in rp.OPEN:
+            d += 1
+        elif c in rp.CLOSE:
+            d -= 1
+        elif c == '<':
+            a += 1
+        elif c == '>' and a > 0:
+            a -= 1
+        elif c == ',' and d == 0 and a == 0:
+            parts.append(body[last:i])
+            last = i + 1
+    parts.append(body[last:])
+    return [p.strip() for p in parts]
+
+
 def r6(text, arg, what):
     m = rp.mask(text)
     out, last, cnt = [], 0, 0
@@ -81,7 +101,7 @@ def r6(text, arg, what):
         ob = m2.find('{')
         if ob >= 0 and ms.group(2) == 'struct':
             cb = rp.match_bracket(m2, ob)
-            fields = rp.split_top(text[ob + 1:cb])
+            fields = _split_fields(text[ob + 1:cb])
             newf = []
             for f in fields:
                 if f.strip() and not f.strip().startswith('pub'):
@@ -402,6 +422,31 @@ def r21(text, arg, what):
     return text, cnt
 
 
+def r4(text, arg, what):
+    """inline expansion of one of the repository's own macros inside a function body (arg = name@path)"""
+    import os
+    name, _, rel = arg.partition('@')
+    repo = os.environ.get('VERIF_REPO', '/repo')
+    src = open(os.path.join(repo, rel)).read()
+    sm = rp.mask(src)
+    m = rp.mask(text)
+    cnt, pos = 0, 0
+    while True:
+        mm = re.compile(r'\b' + re.escape(name) + r'!\s*\(').search(m, pos)
+        if not mm:
+            break
+        op = mm.end() - 1
+        cl = rp.match_bracket(m, op)
+        exp = rp.strip_comments(rp.expand_macro(src, sm, name, text[op + 1:cl])).strip()
+        text = text[:mm.start()] + exp + text[cl + 1:]
+        m = rp.mask(text)
+        pos = mm.start() + len(exp)
+        cnt += 1
+    if cnt == 0:
+        raise AnchorError(f'{what}: R4 requested but no `{name}!(..)` invocation found')
+    return text, cnt
+
+
 def r16(text, arg, what):
     """name the ghost iterator of `for _ in A .. B` loops (Verus annotation syntax `for _ in it: A .. B`)"""
     m = rp.mask(text)
@@ -490,7 +535,7 @@ SIMPLE_IDIOMS = {
 }
 
 
-RULES = {'R1': r1, 'R3': r3, 'R6': r6, 'R8': r8, 'R16': r16, 'R18': r18, 'R2': r2, 'R17': r17, 'R19': r19, 'R21': r21}
+RULES = {'R1': r1, 'R3': r3, 'R6': r6, 'R8': r8, 'R16': r16, 'R18': r18, 'R2': r2, 'R17': r17, 'R19': r19, 'R21': r21, 'R4': r4}
 
 
 def apply(text, uses, what):
